@@ -1809,8 +1809,13 @@ impl FunctionDef {
                 // Build local bindings for this call (O(1) - no clone of parent environment!)
                 let mut local_bindings = HashMap::new();
 
-                // Add self-reference if named
-                if let Some(fn_name) = name {
+                // Add self-reference if named. A name the function captured when it was
+                // created keeps its captured value: the function only came to be called
+                // that afterwards (e.g. `k = make_adder()` in a do-block, where the closure
+                // captured an outer `k`)
+                if let Some(fn_name) = name
+                    && !scope.contains_key(fn_name)
+                {
                     local_bindings.insert(fn_name.clone(), this_value);
                 }
 
